@@ -230,8 +230,8 @@ class EvolvableNetwork(EvolvableModule, metaclass=NetworkMeta):
 
         # By default we use same activation for encoder output as for the rest of the network
         output_activation = encoder_config.get("output_activation")
+        activation = encoder_config.get("activation")
         if output_activation is None:
-            activation = encoder_config.get("activation")
             encoder_config["output_activation"] = activation
 
         if encoder_cls is not None:
@@ -256,6 +256,18 @@ class EvolvableNetwork(EvolvableModule, metaclass=NetworkMeta):
             self.encoder = self.encoder_cls(**encoder_config)
         else:
             self.encoder = self._build_encoder(encoder_config)
+
+        # If the config names no activation at all, the encoder has fallen back on its own
+        # default for the hidden layers. Use it for the output too (as stated above), otherwise
+        # a network rebuilt from `init_dict` (e.g. `clone()`), whose encoder config carries the
+        # resolved activation, gets an output activation the original does not have.
+        if output_activation is None and activation is None:
+            default_activation = getattr(self.encoder, "activation", None)
+            if (
+                isinstance(default_activation, str)
+                and getattr(self.encoder, "output_activation", "") is None
+            ):
+                self.encoder.change_activation(default_activation, output=True)
 
         # NOTE: We disable layer mutations for the encoder since this usually adds a lot
         # of variance to the optimization process
